@@ -45,6 +45,9 @@ type Ctl struct {
 	Fired     bool
 	ImageErr  error
 	Armed     bool // only count / inject while armed
+	// OnFire, when set (after Reset), is called when the ErrorAt fault fires; the injected error then also wraps
+	// context.Canceled: the fault is "the caller's context is cancelled at this boundary", OnFire being its cancel func.
+	OnFire func()
 }
 
 // Reset re-arms the controller for one operation.
@@ -53,6 +56,7 @@ func (c *Ctl) Reset(mode Mode, k int, imageDir string) {
 	defer c.mu.Unlock()
 	c.Mode, c.K, c.ImageDir = mode, k, imageDir
 	c.N, c.Names, c.Fired, c.ImageErr, c.Armed = 0, nil, false, nil, true
+	c.OnFire = nil
 }
 
 // Disarm stops counting (observation code may use the database freely).
@@ -79,6 +83,10 @@ func (c *Ctl) boundary(name string) error {
 	switch c.Mode {
 	case ErrorAt:
 		c.Fired = true
+		if c.OnFire != nil {
+			c.OnFire()
+			return fmt.Errorf("%w at boundary %d (%s): %w", ErrInjected, idx, name, context.Canceled)
+		}
 		return fmt.Errorf("%w at boundary %d (%s)", ErrInjected, idx, name)
 	case ImageAt:
 		c.Fired = true
